@@ -1752,6 +1752,12 @@ void VariableManager::process_variable_declaration(const ASTNode *node) {
                     var.is_assigned = true;
                 }
             }
+        } else if (node->type_info == TYPE_POINTER && !node->is_static &&
+                   node->type_name != "string" &&
+                   node->return_type_name != "string") {
+            // ポインタ宣言の初期化式は後段のポインタ専用ブロックで評価・格納される。
+            // ここでも評価すると初期化式が2回実行されてしまう
+            // （`void* p = malloc(n);` が2ブロック確保して1つリークしていた）
         } else {
             if (var.type == TYPE_STRING &&
                 node->init_expr->node_type == ASTNodeType::AST_ARRAY_REF) {
